@@ -336,29 +336,32 @@ def judge_heap(case):
                      f"{loaded:.3f} with 3 million unrelated lists alive"})
     return {"nontrivial": True, "outcome": "ok", "violations": viol, "_cpu": (lean, loaded)}
 
-BUDGET_S = 60       # every case finishes in seconds on the unchanged tree; a backward that has not returned by then is not linear
+BUDGET_S = 60       # CPU seconds of this process: every case needs a few on the unchanged tree; a backward that has burnt this much is not linear
+WALL_S = 1800       # wall-clock backstop for a case that blocks without using the processor
 
 def _dispatch(case):
     k = case["kind"]
     return judge_cost(case) if k == "cost" else judge_cputime(case) if k == "cputime" else judge_heap(case) if k == "heap" else judge(case)
 
 def dispatch(case):
-    """every case runs under a wall-clock budget: an exponential traversal would otherwise never return (and a check that hangs
-    decides nothing)"""
+    """every case runs under a budget: an exponential traversal would otherwise never return (and a check that hangs decides
+    nothing).  The budget counts processor time of this process (ITIMER_PROF), not wall-clock time: on a machine that is busy with
+    other work a linear backward takes longer on the clock but not on the processor (an earlier wall-clock budget raised
+    did-not-finish on the unchanged tree with 45 other processes on 16 cores)."""
     import signal
     class _Timeout(Exception): pass
     def on_alarm(signum, frame): raise _Timeout()
-    old = signal.signal(signal.SIGALRM, on_alarm)
-    signal.alarm(BUDGET_S)
+    old = signal.signal(signal.SIGALRM, on_alarm); oldp = signal.signal(signal.SIGPROF, on_alarm)
+    signal.alarm(WALL_S); signal.setitimer(signal.ITIMER_PROF, BUDGET_S)
     try:
         return _dispatch(case)
     except _Timeout:
         sys.setprofile(None)
         import gc; gc.enable()
         return {"nontrivial": True, "outcome": "timeout", "violations": [{"kind": f"{case.get('shape', case['kind'])}:did-not-finish",
-                "detail": f"the case did not finish within {BUDGET_S} s (it takes seconds when backward is linear in the graph): {case}"}]}
+                "detail": f"the case did not finish within {BUDGET_S} s of processor time (it takes seconds when backward is linear in the graph): {case}"}]}
     finally:
-        signal.alarm(0); signal.signal(signal.SIGALRM, old)
+        signal.setitimer(signal.ITIMER_PROF, 0); signal.alarm(0); signal.signal(signal.SIGALRM, old); signal.signal(signal.SIGPROF, oldp)
 
 def all_cases(tier):
     sizes = SIZES_Q if tier == "quick" else SIZES_T
